@@ -1022,6 +1022,13 @@ func (g *Gen) f64bits() uint64 {
 	case 3: // powers of ten and neighbours
 		f := math.Pow(10, float64(g.intn(617)-308))
 		return math.Float64bits(f) + uint64(g.intn(3)) - 1
+	case 5: // powers of two and their neighbours, with weight on the integer-type boundaries 2^31, 2^32, 2^53, 2^63, 2^64
+		k := []int{31, 32, 52, 53, 62, 63, 64, 63, 64, 63}[g.intn(10)]
+		if g.chance(0.3) {
+			k = g.intn(2098) - 1074
+		}
+		b := math.Float64bits(math.Ldexp(1, k)) + uint64(g.intn(3)) - 1
+		return uint64(g.intn(2))<<63 | b&^(1<<63)
 	case 4: // 53-bit integers and their neighbours: the binades where the mantissa needs no (or almost no) scaling
 		e := uint64(0x433 + g.intn(5) - 2)
 		if g.chance(0.5) {
